@@ -6,6 +6,9 @@
   pages <sel> <maxpages>       model: get_pages                             -> page;page;...[;E:Err] | -
   spec.pages                   specification on the unfolded tree           -> same form | outside-domain
   spec.select <sel> <maxpages> specSelect on the model's page list          -> same form
+  pagespy <pagenos> <maxpages> model: get_pages with Python-level arguments (pagenos none | - | ints with
+                               duplicates/negatives, maxpages any integer)  -> page;page;...[;E:Err] | -
+  spec.selectpy <pagenos> <maxpages> specSelectPy on the model's page list  -> same form | outside-domain
   spec.order                   specOrder (first arrivals over all simple Kids paths) -> ids | - | outside-domain
   render <rot> <box4> <tx> <ty>      model: LTPage.bbox + glyph matrix      -> 10 rationals
   spec.render <rot> <box4> <tx> <ty> specification of the same              -> 10 rationals | outside-domain
@@ -91,6 +94,11 @@ def showPages (r : List Page × Option Err) : String :=
 def parseSel (s : String) : Option (List Nat) :=
   if s == "none" || s == "-" then some [] else (s.splitOn ",").mapM (fun (w : String) => w.toNat?)
 
+def parsePagenos (s : String) : Option (Option (List Int)) :=
+  if s == "none" then some none
+  else if s == "-" then some (some [])
+  else some <$> (s.splitOn ",").mapM (fun (w : String) => w.toInt?)
+
 def showRender (r : Rect × Matrix) : String :=
   let (a, b, c, d, e, f) := r.2
   showBox r.1 ++ " " ++ " ".intercalate ([a, b, c, d, e, f].map ratToString)
@@ -115,6 +123,18 @@ def step (st : St) (line : String) : St × String :=
     match docTree st.store st.fuel st.catalog with
     | some t => (st, showPages (specPages st.store t))
     | none => (st, "outside-domain")
+  | ["pagespy", pn, mp] =>
+    match parsePagenos pn, mp.toInt? with
+    | some pn, some mp =>
+      let r := createPages st.store st.ids st.fuel st.catalog
+      (st, showPages (getPagesPy pn mp 0 r.1 r.2))
+    | _, _ => (st, "bad-op")
+  | ["spec.selectpy", pn, mp] =>
+    match parsePagenos pn, mp.toInt? with
+    | some pn, some mp =>
+      let r := createPages st.store st.ids st.fuel st.catalog
+      (st, if r.2.isSome || mp < 0 then "outside-domain" else showPages (specSelectPy pn mp r.1, none))
+    | _, _ => (st, "bad-op")
   | ["spec.order"] =>
     match dget st.catalog "Pages" with
     | some (.atom (.ref r)) =>
